@@ -3,40 +3,15 @@
    gni_loop / get_next_imf_gen and peel_loop are proved to compute exactly what the translated programs
    compute under the interpreter of lib/PyLoop.v, for every behaviour of the oracles.
 
-   The reviewable part is the PRIMITIVE MAPPING TABLE of each section: it says which oracle of the model
-   stands for which opaque primitive name emitted by the translator (and with which argument shapes; any
-   other name or shape is [Bad], i.e. the program gets Stuck and the theorems fail). *)
+   The reviewable part - the PRIMITIVE MAPPING TABLES, the initial environments and the rendering of model
+   results - is model/SkeletonPrims.v. *)
 From Coq Require Import String List Bool Arith Lia.
-From EmdV Require Import lib.PyLoop model.SiftCore proofs.SiftCoreFacts gen.Gen_Skeleton.
+From EmdV Require Import lib.PyLoop model.SiftCore proofs.SiftCoreFacts gen.Gen_Skeleton model.SkeletonPrims.
 Import ListNotations.
 Open Scope string_scope.
 
+
 (* ---- generic helpers ------------------------------------------------------------------------ *)
-Definition handler (V : Type) := list (val V) -> list (string * val V) -> res (val V).
-
-Fixpoint table_lookup {V : Type} (t : list (string * handler V)) (f : string) : option (handler V) :=
-  match t with
-  | [] => None
-  | (k, h) :: r => if String.eqb k f then Some h else table_lookup r f
-  end.
-
-Definition prims_of {V : Type} (t : list (string * handler V)) : prims V :=
-  fun f args kw => match table_lookup t f with Some h => h args kw | None => Bad end.
-
-Fixpoint keys_are {V : Type} (kw : list (string * val V)) (ks : list string) : bool :=
-  match kw, ks with
-  | [], [] => true
-  | (k, _) :: r, k' :: r' => String.eqb k k' && keys_are r r'
-  | _, _ => false
-  end.
-
-Definition is_opaque0 {V : Type} (v : val V) (tag : string) : bool :=
-  match v with VOpaque t [] => String.eqb t tag | _ => false end.
-
-(* a frame: the parameters bound to the call's arguments, every other assigned name listed but unbound *)
-Definition frame {V : Type} (params names : list string) (args : list (val V)) : env V :=
-  match assign_all params args (env_of names (fun _ => None)) with Some e => e | None => [] end.
-
 (* a specification of an environment over a fixed list of names: the listed bindings, anything elsewhere *)
 Fixpoint overlay {V : Type} (l : list (string * val V)) (junk : string -> option (val V)) (x : string)
   : option (val V) :=
@@ -45,14 +20,6 @@ Fixpoint overlay {V : Type} (l : list (string * val V)) (junk : string -> option
   | (k, v) :: r => if String.eqb x k then Some v else overlay r junk x
   end.
 
-Definition sig_identity {V : Type} : handler V :=
-  fun args kw => match args, kw with [VSig x], [] => Ok (VSig x) | _, _ => Bad end.
-
-Definition ensure_1d {V : Type} : handler V :=
-  fun args kw => match args, kw with
-                 | [VList [VSig x]; VList [VStr _]; VStr _], [] => Ok (VSig x)
-                 | _, _ => Bad
-                 end.
 
 Ltac oracle_rw :=
   repeat match goal with
@@ -88,101 +55,8 @@ Section GniTie.
   Variable stop_ril : V -> V -> bool.
   Variable energy_fires : V -> V -> bool.
 
-  Definition envs_of (x : V) : option (V * V) :=
-    match env_u x, env_l x with Some u, Some l => Some (u, l) | _, _ => None end.
-
-  Definition optsig (o : option V) : val V := match o with Some v => VSig v | None => VNone end.
-
-  Definition method_str (m : stop_method) : string :=
-    match m with SD => "sd" | Rilling => "rilling" | Fixed => "fixed" end.
-
-  (* ---- the primitive mapping table of get_next_imf ---- *)
-  Definition gni_table : list (string * handler V) :=
-    [ ("ensure_1d_with_singleton", ensure_1d);
-      ("{}", fun args kw => match args, kw with [], [] => Ok (VOpaque "{}" []) | _, _ => Bad end);
-      ("X.copy()", sig_identity);
-      ("x1.copy()", sig_identity);
-      ("str.format", fun args kw => match args, kw with [VStr _; VNat _], [] => Ok (VStr "") | _, _ => Bad end);
-      ("interp_envelope",
-        fun args kw =>
-          match args, kw with
-          | [VSig p], [(_, VStr m); _; _] =>
-              if keys_are kw ["mode"; "**"; "extrema_opts"] then
-                if String.eqb m "upper" then Ok (optsig (env_u p))
-                else if String.eqb m "lower" then Ok (optsig (env_l p)) else Bad
-              else Bad
-          | _, _ => Bad
-          end);
-      ("np.mean([upper, lower], axis=0)[:, None]",
-        fun args kw => match args, kw with [VSig u; VSig l], [] => Ok (VSig (vavg u l)) | _, _ => Bad end);
-      ("-", fun args kw => match args, kw with [VSig a; VSig b], [] => Ok (VSig (vsub a b)) | _, _ => Bad end);
-      ("*", fun args kw =>
-              match args, kw with
-              | [s; VSig a], [] => if is_opaque0 s "env_step_size" then Ok (VSig (vstep a)) else Bad
-              | _, _ => Bad
-              end);
-      ("sd_stop",
-        fun args kw =>
-          match args, kw with
-          | [VSig p; VSig x1], [(_, t); (_, VNat _)] =>
-              if keys_are kw ["sd"; "niters"] && is_opaque0 t "sd_thresh"
-              then Ok (VList [VBool (stop_sd p x1); VOpaque "metric" []]) else Bad
-          | _, _ => Bad
-          end);
-      ("rilling_stop",
-        fun args kw =>
-          match args, kw with
-          | [VSig u; VSig l], [(_, VNat _); (_, a); (_, b); (_, c)] =>
-              if keys_are kw ["niters"; "sd1"; "sd2"; "tol"]
-                 && is_opaque0 a "sd1" && is_opaque0 b "sd2" && is_opaque0 c "tol"
-              then Ok (VList [VBool (stop_ril u l); VOpaque "metric" []]) else Bad
-          | _, _ => Bad
-          end);
-      ("fixed_stop",
-        fun args kw => match args, kw with [VNat n; VNat m], [] => Ok (VBool (Nat.eqb n m)) | _, _ => Bad end);
-      ("proto_imf.ndim",                      (* signals are [nsamples x 1] columns throughout *)
-        fun args kw => match args, kw with [VSig _], [] => Ok (VNat 2) | _, _ => Bad end);
-      ("_energy_difference",
-        fun args kw => match args, kw with
-                       | [VSig a; VSig b], [] => Ok (VOpaque "energy_db" [VSig a; VSig b])
-                       | _, _ => Bad
-                       end);
-      (">", fun args kw =>
-              match args, kw with
-              | [VOpaque t [VSig a; VSig b]; th], [] =>
-                  if String.eqb t "energy_db" && is_opaque0 th "energy_thresh"
-                  then Ok (VBool (energy_fires a b)) else Bad
-              | _, _ => Bad
-              end) ].
-
-  Definition gni_prims : prims V := prims_of gni_table.
-
-  (* ---- the initial environment: the parameters of get_next_imf, in the order of the def line ---- *)
-  Definition gni_args (method : stop_method) (max_iters : nat) (use_energy : bool)
-             (X : V) (eo xo : val V) : list (val V) :=
-    [ VSig X;                                                            (* X *)
-      VOpaque "env_step_size" [];                                        (* env_step_size *)
-      VNat max_iters;                                                    (* max_iters *)
-      if use_energy then VOpaque "energy_thresh" [] else VNone;          (* energy_thresh *)
-      VStr (method_str method);                                          (* stop_method *)
-      VOpaque "sd_thresh" [];                                            (* sd_thresh *)
-      VList [VOpaque "sd1" []; VOpaque "sd2" []; VOpaque "tol" []];      (* rilling_thresh *)
-      eo;                                                                (* envelope_opts: any value *)
-      xo ].                                                              (* extrema_opts: any value *)
-
-  (* every name of the frame: the parameters, then the locals in order of first assignment *)
-  Definition gni_names : list string := Eval cbv in assigned prog_get_next_imf params_get_next_imf.
-
-  Definition gni_env0 method max_iters use_energy X eo xo : env V :=
-    frame params_get_next_imf gni_names (gni_args method max_iters use_energy X eo xo).
-
-  (* ---- how a model result shows at the Python level ---- *)
-  Definition gni_render (r : gni_result V) : outcome V :=
-    match r with
-    | Imf p fl _ => Return (VList [VSig p; VBool fl])
-    | ConvergeError _ => Raise "EMDSiftCovergeError"
-    | GniOutOfFuel => OutOfFuel
-    end.
+  Local Notation gni_prims := (SkeletonPrims.gni_prims V vsub vstep vavg env_u env_l stop_sd stop_ril energy_fires).
+  Local Notation envs_of := (SkeletonPrims.envs_of V env_u env_l).
 
   (* prefix / loop / suffix of the translated body *)
   Definition gni_split := Eval cbv in split_at_while (spine prog_get_next_imf).
@@ -198,7 +72,7 @@ Section GniTie.
     cbv beta iota zeta delta
         [exec eval eval_truth bind map_res truthy do_cmp do_arith do_index nat_cmp nat_arith
          upd lookup env_of assign_all cmp_name ar_name frame overlay
-         gni_prims prims_of table_lookup gni_table keys_are is_opaque0 sig_identity ensure_1d optsig iter_env
+         SkeletonPrims.gni_prims prims_of table_lookup gni_table keys_are is_opaque0 sig_identity ensure_1d optsig iter_env
          gni_names gni_env0 gni_args params_get_next_imf
          gni_split gni_pre gni_cond gni_body gni_post
          String.eqb Ascii.eqb Bool.eqb fst snd nth_error andb negb orb].
@@ -266,7 +140,7 @@ Section GniTie.
              end.
     Proof.
       intros fb eo xo p n junk e. subst e.
-      unfold envs_of, gni_head. rewrite exec_spine. cbv [spine gni_body gni_split].
+      unfold SkeletonPrims.envs_of, gni_head. rewrite exec_spine. cbv [spine gni_body gni_split].
       destruct method; cbn [is_fixed negb andb method_str stop_fires] in *.
       - (* sd *)
         destruct (max_iters <? n)%nat eqn:Hlt; destruct (n =? 3 * max_iters / 4)%nat eqn:Hq.
@@ -365,6 +239,260 @@ Section GniTie.
       - rewrite Hw. reflexivity.
       - rewrite Hw. reflexivity.
     Qed.
+
+    (* more fuel changes nothing once the model's loop has ended *)
+    Lemma gni_loop_fuel_mono : forall f k n p,
+      loopg f n p <> GniOutOfFuel -> loopg (f + k) n p = loopg f n p.
+    Proof.
+      induction f as [|f IH]; intros k n p H; [cbn in H; contradiction|].
+      cbn [Nat.add gni_loop] in *.
+      destruct (negb (is_fixed method) && (max_iters <? n)%nat); [reflexivity|].
+      destruct (envs_of p) as [[u l]|]; [|reflexivity].
+      destruct (sfires (S n) p (vsub p (vavg u l)) u l); [reflexivity|].
+      apply IH. exact H.
+    Qed.
+
+    (* with the model's own bound, and with any larger one when the options are in range *)
+    Theorem skeleton_get_next_imf_model : forall eo xo,
+      exec gni_prims prog_get_next_imf (max_iters + 2) (gni_env0 method max_iters use_energy X eo xo) =
+      gni_render (get_next_imf_gen V vsub vstep vavg envs_of stop_sd stop_ril energy_fires
+                                   method max_iters use_energy false X).
+    Proof. intros. rewrite skeleton_get_next_imf_exact. rewrite gni_gen_fuel_model. reflexivity. Qed.
+
+    Theorem skeleton_get_next_imf_any_fuel : forall f eo xo,
+      (method = Fixed -> (1 <= max_iters)%nat) -> (max_iters + 2 <= f)%nat ->
+      exec gni_prims prog_get_next_imf f (gni_env0 method max_iters use_energy X eo xo) =
+      gni_render (get_next_imf_gen V vsub vstep vavg envs_of stop_sd stop_ril energy_fires
+                                   method max_iters use_energy false X).
+    Proof.
+      intros f eo xo Hr Hf. rewrite skeleton_get_next_imf_exact. rewrite <- gni_gen_fuel_model.
+      unfold gni_gen_fuel. replace f with (max_iters + 2 + (f - (max_iters + 2)))%nat by lia.
+      rewrite gni_loop_fuel_mono; [reflexivity|].
+      apply (gni_never_out_of_fuel V vsub vstep vavg envs_of stop_sd stop_ril method max_iters X Hr).
+    Qed.
   End Fixed.
 End GniTie.
 
+
+(* ============================================================================================== *)
+(* sift: the outer loop                                                                           *)
+(* ============================================================================================== *)
+Section SiftTie.
+  Variable V : Type.
+  Variable vzero : V.
+  Variable vadd vsub : V -> V -> V.
+  Variable small : V -> bool.                  (* np.abs(next_imf).sum() < sift_thresh *)
+  (* get_next_imf(residual, envelope_opts=.., extrema_opts=.., **imf_opts) as ONE opaque primitive:
+     Some (imf, continue_flag), or None when it raises EMDSiftCovergeError *)
+  Variable ext : V -> option (V * bool).
+  Local Notation sift_prims := (SkeletonPrims.sift_prims V vzero vadd vsub small ext).
+  Local Notation extract_of := (SkeletonPrims.extract_of V ext).
+
+
+  Lemma sigs_map : forall l : list V, sigs (map VSig l) = Some l.
+  Proof. induction l as [|a t IH]; [reflexivity|]. cbn [map sigs]. rewrite IH. reflexivity. Qed.
+
+  Lemma cols_mat : forall l : list V, cols_of (mat_val l) = Some l.
+  Proof.
+    intros [|a [|b t]]; try reflexivity.
+    unfold mat_val, cols_of. cbn [String.eqb Ascii.eqb Bool.eqb andb]. apply sigs_map.
+  Qed.
+
+  Lemma mat_val_snoc : forall (l : list V) x, l <> [] -> mat_val (l ++ [x]) = VOpaque "matrix" (map VSig (l ++ [x])).
+  Proof. intros [|a [|b t]] x H; try reflexivity. contradiction. Qed.
+
+  (* ---- the primitive mapping table of sift ---- *)
+
+  Definition sift_split := Eval cbv in split_at_while (spine prog_sift).
+  Definition sift_pre : list stmt := match sift_split with Some (p, _, _) => p | None => [] end.
+  Definition sift_cond : expr := match sift_split with Some (_, (c, _), _) => c | None => ENone end.
+  Definition sift_body : stmt := match sift_split with Some (_, (_, b), _) => b | None => SSkip end.
+  Definition sift_post : list stmt := match sift_split with Some (_, _, q) => q | None => [] end.
+
+  Lemma sift_split_ok : split_at_while (spine prog_sift) = Some (sift_pre, (sift_cond, sift_body), sift_post).
+  Proof. reflexivity. Qed.
+
+  Ltac ev :=
+    cbv beta iota zeta delta
+        [exec eval eval_truth bind map_res truthy do_cmp do_arith do_index nat_cmp nat_arith
+         upd lookup env_of assign_all cmp_name ar_name frame overlay
+         SkeletonPrims.sift_prims prims_of table_lookup sift_table keys_are is_opaque0 sig_identity ensure_1d iter_env
+         sift_names sift_env0 sift_args params_sift cap_val
+         sift_split sift_pre sift_cond sift_body sift_post
+         String.eqb Ascii.eqb Bool.eqb fst snd nth_error andb negb orb].
+  Ltac ev1 := ev; repeat (progress (cbn [Nat.eqb cols_of]; rewrite ?sigs_map; oracle_rw); ev).
+  Ltac steps :=
+    set (K := exec_list sift_prims);
+    assert (K_cons : forall s t f e, K (s :: t) f e =
+                       match exec sift_prims s f e with Normal e' => K t f e' | o => o end) by reflexivity;
+    assert (K_nil : forall f e, K [] f e = Normal e) by reflexivity;
+    repeat (rewrite K_cons; ev1); rewrite ?K_nil; ev1.
+
+  Section Fixed.
+    Variable cap : option nat.
+    Variable X : V.
+
+    Local Notation peel := (peel_loop V vzero vadd vsub small extract_of).
+    Local Notation resid := (residual V vzero vadd vsub X).
+
+    (* the environment at the loop head: L = layer, r = proto_imf, imfb = the binding of imf if any *)
+    Definition sift_head (vb io eo xo : val V) (L : nat) (r : V) (imfb : list (string * val V)) (cs : bool)
+               (junk : string -> option (val V)) : env V :=
+      env_of sift_names
+        (overlay imfb (overlay [ ("X", VSig X);
+                    ("sift_thresh", VOpaque "sift_thresh" []);
+                    ("max_imfs", cap_val cap);
+                    ("verbose", vb);
+                    ("imf_opts", io);
+                    ("envelope_opts", eo);
+                    ("extrema_opts", xo);
+                    ("continue_sift", VBool cs);
+                    ("layer", VNat L);
+                    ("proto_imf", VSig r) ] junk)).
+
+    Definition cap_test (L : nat) : bool := match cap with Some k => (L =? k)%nat | None => false end.
+
+    Lemma sift_body_step : forall fb vb io eo xo L r imfb junk acc,
+      match L with
+      | O => imfb = [] /\ acc = []
+      | S _ => exists m, imfb = [("imf", m)] /\ cols_of m = Some acc
+      end ->
+      let e := sift_head vb io eo xo L r imfb true junk in
+      match ext r with
+      | None => exec sift_prims sift_body fb e = Raise "EMDSiftCovergeError"
+      | Some (nxt, fl) =>
+          exists e', iter_env (exec sift_prims sift_body fb e) = Some e' /\
+            e' = sift_head vb io eo xo (L + 1) (vsub X (vsum V vzero vadd (acc ++ [nxt])))
+                   [("imf", match L with O => VSig nxt | S _ => VOpaque "matrix" (map VSig (acc ++ [nxt])) end)]
+                   (fl && negb (cap_test (L + 1)) && negb (small nxt))
+                   (fun x => lookup x e')
+      end.
+    Proof.
+      intros fb vb io eo xo L r imfb junk acc HL e. subst e.
+      unfold sift_head, cap_test. rewrite exec_spine. cbv [spine sift_body sift_split].
+      destruct (ext r) as [[nxt fl]|] eqn:Ee.
+      - destruct L as [|L'].
+        + destruct HL as [-> ->].
+          destruct cap as [k|]; [destruct (0 + 1 =? k)%nat eqn:Ek|]; destruct (small nxt) eqn:Es; destruct fl;
+            (eexists; split; [steps; reflexivity | ev; reflexivity]).
+        + destruct HL as (m & -> & Hm).
+          destruct cap as [k|]; [destruct (S L' + 1 =? k)%nat eqn:Ek|]; destruct (small nxt) eqn:Es; destruct fl;
+            (eexists; split; [steps; reflexivity | ev; reflexivity]).
+      - destruct L as [|L'].
+        + destruct HL as [-> ->]. steps. reflexivity.
+        + destruct HL as (m & -> & Hm). steps. reflexivity.
+    Qed.
+
+    Lemma sift_test : forall vb io eo xo L r imfb cs junk,
+      match imfb with [] => True | [(k, _)] => k = "imf" | _ => False end ->
+      eval_truth sift_prims (sift_head vb io eo xo L r imfb cs junk) sift_cond = Ok cs.
+    Proof.
+      intros vb io eo xo L r imfb cs junk H. unfold sift_head.
+      destruct imfb as [|[k m] [|? ?]]; try contradiction; [|subst k]; ev; reflexivity.
+    Qed.
+
+    (* the binding of `imf` at the loop head, after the layers in acc *)
+    Definition imf_binding (acc : list V) : list (string * val V) :=
+      match acc with [] => [] | _ => [("imf", mat_val acc)] end.
+
+    Lemma imf_binding_shape : forall acc,
+      match imf_binding acc with [] => True | [(k, _)] => k = "imf" | _ => False end.
+    Proof. intros [|a t]; cbn; auto. Qed.
+
+    Lemma residual_snoc : forall acc x, resid (acc ++ [x]) = vsub X (vsum V vzero vadd (acc ++ [x])).
+    Proof. intros [|a t] x; reflexivity. Qed.
+
+    Lemma imf_binding_snoc : forall acc x,
+      imf_binding (acc ++ [x]) =
+      [("imf", match length acc with O => VSig x | S _ => VOpaque "matrix" (map VSig (acc ++ [x])) end)].
+    Proof.
+      intros [|a t] x; [reflexivity|].
+      unfold imf_binding. rewrite mat_val_snoc by discriminate.
+      destruct ((a :: t) ++ [x])%list eqn:E; [destruct t; discriminate|]. reflexivity.
+    Qed.
+
+    (* the while loop against peel_loop, for every fuel: one body execution per unit of model fuel *)
+    Lemma sift_while : forall fb vb io eo xo f acc junk,
+      let w := while_loop (fun e' => eval_truth sift_prims e' sift_cond)
+                          (fun e' => exec sift_prims sift_body fb e') f
+                          (sift_head vb io eo xo (length acc) (resid acc) (imf_binding acc) true junk) in
+      let (acc', fl) := peel f cap X acc in
+      if out_of_fuel fl then w = OutOfFuel
+      else if raised fl then w = Raise "EMDSiftCovergeError"
+      else acc' <> [] /\
+           exists junk', w = Normal (sift_head vb io eo xo (length acc') (resid acc') (imf_binding acc') false junk').
+    Proof.
+      intros fb vb io eo xo. induction f as [|f IH]; intros acc junk w; subst w.
+      - cbn [peel_loop out_of_fuel]. rewrite while_loop_unfold, sift_test by apply imf_binding_shape. reflexivity.
+      - cbn [peel_loop]. rewrite while_loop_unfold, sift_test by apply imf_binding_shape.
+        pose proof (sift_body_step fb vb io eo xo (length acc) (resid acc) (imf_binding acc) junk acc) as Hs.
+        cbv zeta in Hs.
+        assert (HL : match length acc with
+                     | O => imf_binding acc = [] /\ acc = []
+                     | S _ => exists m, imf_binding acc = [("imf", m)] /\ cols_of m = Some acc
+                     end).
+        { destruct acc as [|a t]; cbn [length]; [split; reflexivity|].
+          exists (mat_val (a :: t)). split; [reflexivity|apply cols_mat]. }
+        specialize (Hs HL). clear HL.
+        unfold SkeletonPrims.extract_of at 1.
+        destruct (ext (resid acc)) as [[nxt flg]|].
+        + destruct Hs as (e' & He' & Hs).
+          assert (Hw : forall k,
+                    match exec sift_prims sift_body fb
+                            (sift_head vb io eo xo (length acc) (resid acc) (imf_binding acc) true junk) with
+                    | Normal e1 | Continue e1 => k e1
+                    | o => o
+                    end = k e').
+          { intros k. destruct (exec sift_prims sift_body fb _);
+              cbn [iter_env] in He'; try discriminate; inversion He'; reflexivity. }
+          rewrite Hw. clear Hw He'.
+          rewrite <- imf_binding_snoc, <- residual_snoc in Hs.
+          replace (length acc + 1)%nat with (length (acc ++ [nxt])) in Hs
+            by (rewrite app_length; reflexivity).
+          fold (cap_test (length (acc ++ [nxt]))).
+          set (c := cap_test (length (acc ++ [nxt]))) in *.
+          replace (flg && negb c && negb (small nxt)) with (negb (c || small nxt || negb flg)) in Hs
+            by (destruct flg, c, (small nxt); reflexivity).
+          destruct (c || small nxt || negb flg).
+          * cbn [out_of_fuel raised]. split; [destruct acc; discriminate|].
+            rewrite Hs. rewrite while_loop_unfold, sift_test by apply imf_binding_shape.
+            eexists. reflexivity.
+          * rewrite Hs. apply IH.
+        + cbn [out_of_fuel raised]. rewrite Hs. reflexivity.
+    Qed.
+
+    Lemma sift_prefix : forall f vb io eo xo, io_ok io ->
+      exists io' junk,
+        exec_list sift_prims sift_pre f (sift_env0 cap X vb io eo xo) =
+        Normal (sift_head vb io' eo xo 0 X [] true junk).
+    Proof.
+      intros f vb io eo xo [-> | ->]; eexists; exists (fun _ => None); unfold sift_head; ev; steps; reflexivity.
+    Qed.
+
+    Lemma sift_suffix : forall f vb io eo xo L r m junk,
+      exec_list sift_prims sift_post f (sift_head vb io eo xo L r [("imf", m)] false junk) = Return m.
+    Proof. intros. unfold sift_head. ev; steps; reflexivity. Qed.
+
+    (* THE TIE for sift's outer loop, for every fuel (= bound on the number of layers): the translated body
+       of sift returns exactly the columns peel_loop returns, raises iff the extraction raised, and runs out
+       of fuel iff the model does (the loop is not guaranteed to end by the code) *)
+    Theorem skeleton_sift_refines : forall f vb io eo xo, io_ok io ->
+      exec sift_prims prog_sift f (sift_env0 cap X vb io eo xo) = sift_render (peel f cap X []).
+    Proof.
+      intros f vb io eo xo Hio. rewrite (exec_split _ _ _ _ _ _ _ _ _ sift_split_ok).
+      destruct (sift_prefix f vb io eo xo Hio) as (io' & junk & Hpre). rewrite Hpre.
+      cbn [exec].
+      pose proof (sift_while f vb io' eo xo f [] junk) as Hw. cbv zeta in Hw.
+      change (length (@nil V)) with 0%nat in Hw. change (resid []) with X in Hw.
+      change (imf_binding []) with (@nil (string * val V)) in Hw.
+      unfold sift_render.
+      destruct (peel f cap X []) as [acc' fl].
+      destruct (out_of_fuel fl); [rewrite Hw; reflexivity|].
+      destruct (raised fl); [rewrite Hw; reflexivity|].
+      destruct Hw as (Hne & junk' & Hw). rewrite Hw.
+      destruct acc' as [|a t]; [contradiction|].
+      change (imf_binding (a :: t)) with [("imf", mat_val (a :: t))].
+      apply sift_suffix.
+    Qed.
+  End Fixed.
+End SiftTie.
